@@ -327,4 +327,196 @@ def tokRd {α} (parse : List Char → α) (dflt : α) : List (List Char) → α 
 /-- well-formed tensor: what the constructors establish -/
 def WF {α} (t : Tensor α) : Prop := (∀ d ∈ t.dims, 0 < d) ∧ t.data.length = prod t.dims
 
+/-! ### `Clone` (value semantics) and histories over several tensors
+
+`#[derive(Clone)]` on `Tensor`: `clone` copies shape and storage; `clone_from` is the trait's
+default method `*self = source.clone()` — whatever `self` was before (another shape, the same
+number of elements or not), afterwards it is a copy of `source`. -/
+
+/-- `Clone::clone` (derived): `Tensor { dims: self.dims.clone(), data: self.data.clone() }` -/
+def clone {α} (t : Tensor α) : Tensor α := ⟨t.dims, t.data⟩
+
+/-- `Clone::clone_from` (default method): `*self = source.clone()` -/
+def cloneFrom {α} (_self source : Tensor α) : Tensor α := clone source
+
+/-- `pub fn dim(&self, i: usize) -> usize { self.dims[i] }` (array index: `panic:index` for `i ≥ D`) -/
+def dim {α} (t : Tensor α) (i : Nat) : Except Panic Nat :=
+  match t.dims[i]? with
+  | some d => .ok d
+  | none => .error .index
+
+/-- One step of a history over tensor slots (`Tensor<i64, D>` values held in numbered variables). -/
+inductive HOp where
+  /-- `slot s = from_vec(dims, start, start+1, …)` -/
+  | mk (s : Nat) (dims : List Nat) (start : Int)
+  /-- `slot s = slot r .clone()` -/
+  | cl (s r : Nat)
+  /-- `slot s .clone_from(&slot r)` -/
+  | cf (s r : Nat)
+  /-- `slot s == slot r` -/
+  | eq (s r : Nat)
+  /-- `slot s .dims()` -/
+  | dims (s : Nat)
+  /-- `slot s .dim(i)` -/
+  | dim (s : Nat) (i : Nat)
+  /-- `slot s .get_index(idx)` -/
+  | get (s : Nat) (idx : List Nat)
+  /-- `slot s [idx]` -/
+  | rd (s : Nat) (idx : List Nat)
+  /-- `slot s [idx] = v`, then all cells are observed -/
+  | wr (s : Nat) (idx : List Nat) (v : Int)
+  /-- `slot s .iter()` -/
+  | it (s : Nat)
+  /-- `Writable::write` of slot s -/
+  | w (s : Nat)
+  deriving Repr
+
+/-- What one step shows.  `panic (some e)` is the model's raw panic, `panic none` "some panic" (the
+    property's view); `invalid` = the step referred to a slot that holds nothing. -/
+inductive Obs where
+  | done
+  | bool (b : Bool)
+  | nat (n : Nat)
+  | nats (l : List Nat)
+  | int (i : Int)
+  | ints (l : List Int)
+  | pieces (ps : List (Piece Int))
+  | panic (e : Option Panic)
+  | invalid
+  deriving Repr, DecidableEq
+
+/-- the property's view of an observation: a panic is a panic -/
+def Obs.view : Obs → Obs
+  | .panic _ => .panic none
+  | o => o
+
+abbrev HState := Nat → Option (Tensor Int)
+
+def HState.empty : HState := fun _ => none
+
+def HState.set (st : HState) (s : Nat) (t : Tensor Int) : HState := fun k => if k = s then some t else st k
+
+/-- `start, start+1, …` (`n` values) -/
+def seqData (n : Nat) (start : Int) : List Int := (List.range n).map (fun (k : Nat) => start + Int.ofNat k)
+
+def obsE {α} (f : α → Obs) : Except Panic α → Obs
+  | .ok a => f a
+  | .error e => .panic (some e)
+
+/-- One step as the model executes it (`fromVec`, `clone`, `cloneFrom`, `eq`, `dim`, `getIndex`, `index`, `setAt`, `iter`,
+    `writePieces`). -/
+def stepModel (st : HState) : HOp → HState × Obs
+  | .mk s dims start =>
+    match fromVec dims (seqData (prod dims) start) with
+    | .ok t => (st.set s t, .done)
+    | .error e => (st, .panic (some e))
+  | .cl s r =>
+    match st r with
+    | some t => (st.set s (clone t), .done)
+    | none => (st, .invalid)
+  | .cf s r =>
+    match st s, st r with
+    | some a, some b => (st.set s (cloneFrom a b), .done)
+    | _, _ => (st, .invalid)
+  | .eq s r =>
+    match st s, st r with
+    | some a, some b => (st, .bool (eq a b))
+    | _, _ => (st, .invalid)
+  | .dims s =>
+    match st s with
+    | some t => (st, .nats t.dims)
+    | none => (st, .invalid)
+  | .dim s i =>
+    match st s with
+    | some t => (st, obsE .nat (dim t i))
+    | none => (st, .invalid)
+  | .get s idx =>
+    match st s with
+    | some t => (st, obsE .nat (getIndex t.dims idx))
+    | none => (st, .invalid)
+  | .rd s idx =>
+    match st s with
+    | some t => (st, obsE .int (index t idx))
+    | none => (st, .invalid)
+  | .wr s idx v =>
+    match st s with
+    | some t =>
+      match setAt t idx v with
+      | .ok t' => (st.set s t', .ints (iter t'))
+      | .error e => (st, .panic (some e))
+    | none => (st, .invalid)
+  | .it s =>
+    match st s with
+    | some t => (st, .ints (iter t))
+    | none => (st, .invalid)
+  | .w s =>
+    match st s with
+    | some t => (st, obsE .pieces (writePieces t))
+    | none => (st, .invalid)
+
+/-- One step as the property states it: a slot holds a shape and the elements in row-major order;
+    `clone` / `clone_from` make the target hold **the source's shape and elements** (whatever it held);
+    indexing goes through `InRange` / `flat`, output through `specPieces`. -/
+def stepSpec (st : HState) : HOp → HState × Obs
+  | .mk s dims start =>
+    if 0 ∈ dims then (st, .panic none) else (st.set s ⟨dims, seqData (prod dims) start⟩, .done)
+  | .cl s r =>
+    match st r with
+    | some t => (st.set s t, .done)
+    | none => (st, .invalid)
+  | .cf s r =>
+    match st s, st r with
+    | some _, some b => (st.set s b, .done)
+    | _, _ => (st, .invalid)
+  | .eq s r =>
+    match st s, st r with
+    | some a, some b => (st, .bool (decide (a.dims = b.dims ∧ a.data = b.data)))
+    | _, _ => (st, .invalid)
+  | .dims s =>
+    match st s with
+    | some t => (st, .nats t.dims)
+    | none => (st, .invalid)
+  | .dim s i =>
+    match st s with
+    | some t => (st, if h : i < t.dims.length then .nat t.dims[i] else .panic none)
+    | none => (st, .invalid)
+  | .get s idx =>
+    match st s with
+    | some t => (st, if InRange t.dims idx then .nat (flat t.dims idx) else .panic none)
+    | none => (st, .invalid)
+  | .rd s idx =>
+    match st s with
+    | some t =>
+      (st, if InRange t.dims idx then
+        (match t.data[flat t.dims idx]? with
+         | some a => .int a
+         | none => .panic none)
+       else .panic none)
+    | none => (st, .invalid)
+  | .wr s idx v =>
+    match st s with
+    | some t =>
+      if InRange t.dims idx then
+        (st.set s ⟨t.dims, t.data.set (flat t.dims idx) v⟩, .ints (t.data.set (flat t.dims idx) v))
+      else (st, .panic none)
+    | none => (st, .invalid)
+  | .it s =>
+    match st s with
+    | some t => (st, .ints t.data)
+    | none => (st, .invalid)
+  | .w s =>
+    match st s with
+    | some t => (st, .pieces (specPieces t.dims t.data))
+    | none => (st, .invalid)
+
+def runWith (step : HState → HOp → HState × Obs) : HState → List HOp → List Obs
+  | _, [] => []
+  | st, op :: ops =>
+    let (st', o) := step st op
+    o :: runWith step st' ops
+
+/-- a whole history from empty slots: the model's observations / the specified ones -/
+def runModel (ops : List HOp) : List Obs := runWith stepModel HState.empty ops
+def runSpec (ops : List HOp) : List Obs := runWith stepSpec HState.empty ops
+
 end Rlib.Tensor
